@@ -37,6 +37,8 @@ func main() {
 		err = cmdLimits(os.Args[2:])
 	case "fidelity":
 		err = cmdFidelity(os.Args[2:])
+	case "publish":
+		err = cmdPublish(os.Args[2:])
 	case "reload":
 		err = cmdReload(os.Args[2:])
 	case "wfa-child":
